@@ -1236,6 +1236,9 @@ def run(ctx: Ctx) -> None:
                 "or loss or a rule present and >= 1 photon (history: >= 1 read after a reconfiguration); distinct = "
                 "distinct configuration / history")
     rng = ctx.rng
+    import postsel
+
+    postsel.run_stream(ctx, pyrandom.Random(f"C05-postsel-{ctx.seed}"), ctx.n(200, 3000))
     streams = set((os.environ.get("C05_STREAMS") or "1,2,3,4").split(","))  # experiments only
     if streams != {"1", "2", "3", "4"}:
         ctx.notes.append(f"only streams {sorted(streams)} were run (C05_STREAMS)")
